@@ -331,6 +331,7 @@ type spec struct {
 	dclass   string   // state of a destSlicePtr receiver before decoding (destClasses); "" = drawn per evaluation
 	garbOnly bool     // garbage destination only
 	oddDest  bool     // "typ" is ignored: a list of unsupported destinations
+	numeric  bool     // "typ" is ignored: the numeric boundary probe table of the codec (numeric.go)
 	siblings []string // tclasses of the same codec with the same field names and other shapes
 	gen      func(c *ctx) reflect.Value
 	vclasses []string
@@ -504,6 +505,11 @@ func buildSpecs() []*spec {
 	add("thrift", "empty-struct", struct{}{})
 	add("thrift", "odd-dest", nil, odd)
 
+	// numeric boundary probes of the text codecs
+	for _, c := range []string{"form", "plain", "json", "xml"} {
+		add(c, "numeric", nil, func(s *spec) { s.garbOnly = true; s.numeric = true })
+	}
+
 	// receivers of the byte-slice fast paths in every state a caller can hand them over in:
 	// socket.Message body bypass ([]byte / *[]byte sent, *[]byte received) and plain codec *[]byte
 	for _, dc := range destClasses {
@@ -521,7 +527,7 @@ func buildSpecs() []*spec {
 			}
 			s.cd = cd
 		}
-		if s.oddDest {
+		if s.oddDest || s.numeric {
 			continue
 		}
 		s.holder = reflect.StructOf([]reflect.StructField{
